@@ -316,7 +316,7 @@ func conclude(c *Check, tier string, seed uint64, plan Plan, outcomes []shardOut
 				key := "crash:" + TopDialsFrame(afterFirst(o.stderr, m))
 				viols = append(viols, Violation{Property: c.ID, Key: key,
 					Detail: fmt.Sprintf("worker process died: %s (last case started: %d %s)", m, lc, desc),
-					Tier: tier, Seed: seed, Shard: o.shard, Shards: plan.Shards, Case: lc, N: plan.CasesPerShard,
+					Tier:   tier, Seed: seed, Shard: o.shard, Shards: plan.Shards, Case: lc, N: plan.CasesPerShard,
 					Witness: map[string]any{"stderr": TrimStack(afterFirst(o.stderr, m)), "case_desc": desc}})
 			} else {
 				harnessFail = append(harnessFail, fmt.Sprintf("shard %d exited abnormally without a result (%v)", o.shard, o.exitErr))
